@@ -1,9 +1,423 @@
 import WzVerif.Driver.Proto
+import WzVerif.Model.Wire
+import WzVerif.Model.Views
 namespace Wz.Driver.C16
-open Wz Wz.Proto
+open Wz Wz.Proto Wz.Wire Wz.Hdr Wz.Views
 
-/-- stub: no model commands yet -/
+/-! request: `view <family> <prop> <init pairs> op…`; answer: `#dump;ret#dump;…`
+dump = `H=<all header pairs>|V=<held view>|R=<re-read view>` -/
+
+def oOptS : Option Str → String := oOpt oS
+def oOptI : Option Int → String := oOpt oInt
+def oODict (d : ODict) : String := oList (fun e => "(" ++ oS e.1 ++ "," ++ oOptS e.2 ++ ")") d
+def oSDict (d : Dict Str Str) : String := oPairs d
+
+/-- `k=v` pairs with optional values: `k=~` is None -/
+def pOKV (s : String) : Option ODict :=
+  if s == "[]" then some [] else (s.splitOn "+").mapM fun e =>
+    match e.splitOn "=" with
+    | [k, v] => do pure (← pAtom k, ← pOptAtom v)
+    | _ => none
+
+/-- a header edit applied directly to `response.headers` -/
+def directEdit (h : HList) (fields : List String) : Option (HList × String) := do
+  let op ← pHdrOp (",".intercalate fields)
+  let r := Hdr.step h op
+  pure (r.1, oExcept oHdrRet r.2)
+
+/-! ### generic loop -/
+
+structure Fam (σ : Type) where
+  load : HList → σ
+  show_ : σ → String
+  /-- view op: fields → (new headers, new view, result) -/
+  vop : HList → σ → List String → Option (HList × σ × String)
+  /-- whole-property assignment: fields → (new headers, optional new held view, result) -/
+  assign : HList → List String → Option (HList × Option σ × String)
+  /-- `del response.prop` -/
+  delete : HList → Option (HList × String)
+
+def dumpAll {σ : Type} (f : Fam σ) (h : HList) (v : σ) : String :=
+  "H=" ++ oPairs h ++ "|V=" ++ f.show_ v ++ "|R=" ++ f.show_ (f.load h)
+
+def runOps {σ : Type} (f : Fam σ) (h : HList) (v : σ) : List String → Option (List String)
+  | [] => some []
+  | o :: t => do
+    let (h', v', ret) ← (match o.splitOn "," with
+      | ["f"] => some (h, f.load h, "~")
+      | "h" :: fields => (directEdit h fields).map fun (h', r) => (h', v, r)
+      | "v" :: fields => f.vop h v fields
+      | "as" :: fields => (f.assign h fields).map fun (h', nv, r) => (h', nv.getD v, r)
+      | ["del"] => (f.delete h).map fun (h', r) => (h', v, r)
+      | _ => none : Option (HList × σ × String))
+    let rest ← runOps f h' v' t
+    pure ((ret ++ "#" ++ dumpAll f h' v') :: rest)
+
+def runFam {σ : Type} (f : Fam σ) (init : String) (ops : List String) : Option String := do
+  let ps ← pPairs init
+  let h : HList := ps
+  let v := f.load h
+  let outs ← runOps f h v ops
+  pure (";".intercalate (("#" ++ dumpAll f h v) :: outs))
+
+/-! ### HeaderSet views -/
+
+def pHSOp (fields : List String) : Option HS.Op :=
+  match fields with
+  | ["add", h] => do pure (.add (← pAtom h))
+  | ["remove", h] => do pure (.remove (← pAtom h))
+  | ["discard", h] => do pure (.discard (← pAtom h))
+  | ["update", hs] => do pure (.update (← pAtoms hs))
+  | ["clear"] => some .clear
+  | ["delitem", i] => do pure (.delitem (← pInt i))
+  | ["setitem", i, v] => do pure (.setitem (← pInt i) (← pAtom v))
+  | _ => none
+
+def showSet (c : HS.St) : String :=
+  "list=" ++ oStrs c.headers ++ "/set=[" ++ ",".intercalate (sortStrs (c.set.map oS)) ++ "]/len=" ++
+    oNat (HS.len c) ++ "/hdr=" ++ oS (SetView.dump c)
+
+def resOf : Except String Unit → String
+  | .ok _ => "~"
+  | .error e => oExc e
+
+/-- `response.<set property> = value` -/
+def assignRaw (h : HList) (name : Str) (fields : List String) (dictDump : ODict → Str) : Option (HList × String) :=
+  match fields with
+  | ["none"] => some (delKey h name, "~")
+  | ["str", s] => do
+    let s ← pAtom s
+    if s.isEmpty then pure (delKey h name, "~") else
+    let r := Hdr.set h name s
+    pure (r.1, resOf r.2)
+  | ["list", l] => do
+    let l ← pAtoms l
+    if l.isEmpty then pure (delKey h name, "~") else
+    let r := Hdr.set h name (dumpList l)
+    pure (r.1, resOf r.2)
+  | ["dict", d] => do
+    let d ← pOKV d
+    if d.isEmpty then pure (delKey h name, "~") else
+    let r := Hdr.set h name (dictDump d)
+    pure (r.1, resOf r.2)
+  | _ => none
+
+def famSet (name : Str) : Fam HS.St where
+  load h := SetView.load h name
+  show_ := showSet
+  vop h v fields := do
+    let op ← pHSOp fields
+    let r := HS.step v op
+    let h' := if r.notified then SetView.write h name r.st else h
+    pure (h', r.st, resOf r.res)
+  assign h fields := (assignRaw h name fields dumpDict).map fun (h', r) => (h', none, r)
+  delete _ := none
+
+/-! ### Cache-Control -/
+
+def ccRow (attr : String) : Option (Str × Bool × CC.Ty) :=
+  (Gen.Views.cacheControlProps.find? (·.1 == attr)).map fun (_, key, empty, ty) =>
+    (key.toList, empty == "true", if ty == "bool" then CC.Ty.bool else if ty == "int" then CC.Ty.int else CC.Ty.str)
+
+def pCCVal (s : String) : Option CC.Val :=
+  if s == "~" then some .none
+  else if s == "t" then some (.bool true)
+  else if s == "f" then some (.bool false)
+  else match s.toList with
+    | 'i' :: r => (String.ofList r).toInt?.map .int
+    | 's' :: r => (pAtom (String.ofList r)).map .str
+    | _ => none
+
+def oGot : CC.Got → String
+  | .none => "~"
+  | .bool b => oBool b
+  | .int i => oInt i
+  | .str s => oS s
+
+def showCC (d : ODict) : String :=
+  "items=" ++ oODict d ++ "/hdr=" ++ oS (CC.dump d) ++ "/" ++
+    ",".intercalate (Gen.Views.cacheControlProps.map fun (attr, key, empty, ty) =>
+      attr ++ "=" ++ oGot (CC.getValue d key.toList (empty == "true")
+        (if ty == "bool" then .bool else if ty == "int" then .int else .str)))
+
+def pDOp {β : Type} (pv : String → Option β) (fields : List String) : Option (DOp β) :=
+  match fields with
+  | ["setitem", k, v] => do pure (.setitem (← pAtom k) (← pv v))
+  | ["delitem", k] => do pure (.delitem (← pAtom k))
+  | ["clear"] => some .clear
+  | ["popitem"] => some .popitem
+  | ["update", l] =>
+    if l == "[]" then some (.update []) else do
+      let items ← (l.splitOn "+").mapM fun e =>
+        match e.splitOn "=" with
+        | [k, v] => do pure (← pAtom k, ← pv v)
+        | _ => none
+      pure (.update items)
+  | ["setdefault", k, v] => do pure (.setdefault (← pAtom k) (← pv v))
+  | ["pop", k, d] => do
+    let k ← pAtom k
+    if d == "!" then pure (.pop k none) else pure (.pop k (some (← pv d)))
+  | _ => none
+
+def oDRes {β : Type} (f : β → String) : Except String (Option β) → String
+  | .ok none => "~"
+  | .ok (some x) => f x
+  | .error e => oExc e
+
+def famCC : Fam ODict where
+  load := CC.load
+  show_ := showCC
+  vop h v fields :=
+    match fields with
+    | ["attr", attr, val] => do
+      let (key, _, ty) ← ccRow attr
+      let val ← pCCVal val
+      let r := CC.setValue v key ty val
+      pure (if r.notified then CC.write h r.st else h, r.st, resOf r.res)
+    | ["delattr", attr] => do
+      let (key, _, _) ← ccRow attr
+      let r := CC.delValue v key
+      pure (if r.notified then CC.write h r.st else h, r.st, resOf r.res)
+    | _ => do
+      let op ← pDOp pOptAtom fields
+      let r := dstep v op
+      pure (if r.notified then CC.write h r.st else h, r.st, oDRes oOptS r.res)
+  assign _ _ := none
+  delete _ := none
+
+/-! ### CSP -/
+
+def cspKey (attr : String) : Option Str := (Gen.Views.cspProps.find? (·.1 == attr)).map (·.2.toList)
+
+def showCSP (d : CSP.St) : String := "items=" ++ oSDict d ++ "/hdr=" ++ oS (CSP.dump d)
+
+def famCSP (name writeName : Str) : Fam CSP.St where
+  load h := CSP.load h name
+  show_ := showCSP
+  vop h v fields :=
+    match fields with
+    | ["attr", attr, val] => do
+      let key ← cspKey attr
+      let val ← pOptAtom val
+      let r := CSP.setValue v key val
+      pure (if r.notified then CSP.write h name writeName r.st else h, r.st, resOf r.res)
+    | ["delattr", attr] => do
+      let key ← cspKey attr
+      let r := CSP.delValue v key
+      pure (if r.notified then CSP.write h name writeName r.st else h, r.st, resOf r.res)
+    | _ => do
+      let op ← pDOp pAtom fields
+      let r := dstep v op
+      pure (if r.notified then CSP.write h name writeName r.st else h, r.st, oDRes oS r.res)
+  assign h fields :=
+    match fields with
+    | ["none"] => some (delKey h name, none, "~")
+    | ["str", s] => do
+      let s ← pAtom s
+      if s.isEmpty then pure (delKey h name, none, "~") else
+      let r := Hdr.set h writeName s
+      pure (r.1, none, resOf r.2)
+    | ["view", ps] => do
+      let ps ← pPairs ps
+      let d : CSP.St := ps.foldl (fun a e => PyDict.set a e.1 e.2) []
+      if d.isEmpty then pure (delKey h name, none, "~") else
+      let r := Hdr.set h writeName (CSP.dump d)
+      pure (r.1, none, resOf r.2)
+    | _ => none
+  delete _ := none
+
+/-! ### Content-Range -/
+
+def showCR (c : CR.St) : String :=
+  "(" ++ oOptS c.units ++ "," ++ oOptI c.start ++ "," ++ oOptI c.stop ++ "," ++ oOptI c.length ++ ")/bool=" ++
+    oBool c.units.isSome ++ "/hdr=" ++ oExcept oS (CR.toHeader c)
+
+def pCROp (fields : List String) : Option CR.Op :=
+  match fields with
+  | ["units", u] => do pure (.setUnits (← pOptAtom u))
+  | ["start", i] => do pure (.setStart (← pOptInt i))
+  | ["stop", i] => do pure (.setStop (← pOptInt i))
+  | ["length", i] => do pure (.setLength (← pOptInt i))
+  | ["set", a, b, l, u] => do pure (.set (← pOptInt a) (← pOptInt b) (← pOptInt l) (← pOptAtom u))
+  | ["unset"] => some .unset
+  | _ => none
+
+def famCR : Fam CR.St where
+  load := CR.load
+  show_ := showCR
+  vop h v fields := do
+    let op ← pCROp fields
+    let r := CR.step v op
+    if r.notified then
+      let w := CR.write h r.st
+      pure (w.1, r.st, match w.2 with | .ok _ => resOf r.res | .error e => oExc e)
+    else pure (h, r.st, resOf r.res)
+  assign h fields :=
+    let name := "content-range".toList
+    match fields with
+    | ["none"] => some (delKey h name, none, "~")
+    | ["str", s] => do
+      let s ← pAtom s
+      if s.isEmpty then pure (delKey h name, none, "~") else
+      let r := Hdr.set h "Content-Range".toList s
+      pure (r.1, none, resOf r.2)
+    | ["view", u, a, b, l] => do
+      let c : CR.St := ⟨← pOptAtom u, ← pOptInt a, ← pOptInt b, ← pOptInt l⟩
+      if c.units.isNone then pure (delKey h name, none, "~") else
+      match CR.toHeader c with
+      | .error e => pure (h, none, oExc e)
+      | .ok t =>
+        let r := Hdr.set h "Content-Range".toList t
+        pure (r.1, none, resOf r.2)
+    | _ => none
+  delete _ := none
+
+/-! ### WWW-Authenticate -/
+
+def showAuth (c : Auth.St) : String :=
+  "type=" ++ oS c.type ++ "/token=" ++ oOptS c.token ++ "/params=" ++ oODict c.params ++ "/hdr=" ++ oS (Auth.toHeader c)
+
+def pAuthOp (fields : List String) : Option Auth.Op :=
+  match fields with
+  | ["type", s] => do pure (.setType (← pAtom s))
+  | ["token", t] => do pure (.setToken (← pOptAtom t))
+  | ["params", d] => do pure (.setParams (← pOKV d))
+  | ["setitem", k, v] => do pure (.setitem (← pAtom k) (← pOptAtom v))
+  | ["setattr", k, v] => do pure (.setitem (← pAtom k) (← pOptAtom v))
+  | ["delitem", k] => do pure (.delitem (← pAtom k))
+  | ["delattr", k] => do pure (.delitem (← pAtom k))
+  | "p" :: rest => (pDOp pOptAtom rest).map .pdict
+  | _ => none
+
+def pAuthView (t tok ps : String) : Option Auth.St := do
+  pure ⟨lower (← pAtom t), ← pOKV ps, ← pOptAtom tok⟩
+
+def famAuth : Fam Auth.St where
+  load := Auth.load
+  show_ := showAuth
+  vop h v fields := do
+    let op ← pAuthOp fields
+    let r := Auth.step v op
+    pure (if r.notified then Auth.write h r.st else h, r.st, oDRes oOptS r.res)
+  assign h fields :=
+    let name := "WWW-Authenticate".toList
+    match fields with
+    | ["none"] => some (if Hdr.contains h name then delKey h name else h, none, "~")
+    | ["view", t, tok, ps] => do
+      let c ← pAuthView t tok ps
+      pure (Auth.write h c, some c, "~")
+    | ["list", t1, tok1, ps1, t2, tok2, ps2] => do
+      let c1 ← pAuthView t1 tok1 ps1
+      let c2 ← pAuthView t2 tok2 ps2
+      let h1 := Auth.write h c1
+      let r := Hdr.add h1 name (Auth.toHeader c2)
+      pure (r.1, none, "~")
+    | _ => none
+  delete h :=
+    let name := "WWW-Authenticate".toList
+    some (if Hdr.contains h name then delKey h name else h, "~")
+
+/-! ### mimetype_params -/
+
+def famMP : Fam MP.St where
+  load := MP.load
+  show_ d := "items=" ++ oSDict d
+  vop h v fields := do
+    let op ← pDOp pAtom fields
+    let r := dstep v op
+    if r.notified then
+      let w := MP.write h r.st
+      pure (w.1, r.st, match w.2 with | .ok _ => oDRes oS r.res | .error e => oExc e)
+    else pure (h, r.st, oDRes oS r.res)
+  assign _ _ := none
+  delete _ := none
+
+/-! ### scalar typed properties -/
+
+inductive SVal where
+  | none
+  | int (i : Int)
+  | str (s : Str)
+  | strs (l : List Str)
+
+def oSVal : SVal → String
+  | .none => "~"
+  | .int i => oInt i
+  | .str s => oS s
+  | .strs l => oStrs l
+
+/-- (header name, load kind, default text) of a `header_property` attribute -/
+def scalarRow (attr : String) : Option (Str × String × String) :=
+  (Gen.Views.headerProps.find? (·.1 == attr)).map fun (_, name, lf, _, dflt, _) => (name.toList, lf, dflt)
+
+def scalarGet (h : HList) (attr : String) : Option SVal := do
+  let (name, lf, dflt) ← scalarRow attr
+  let enumVals := if attr == "cross_origin_opener_policy" then Gen.Views.coopValues else Gen.Views.coepValues
+  match getKey h name with
+  | .error _ => pure (if dflt == "none" then .none else .str dflt.toList)
+  | .ok v =>
+    if lf == "none" || lf == "parse_date" then pure (.str v)
+    else if lf == "int" then pure (match CC.pyInt v with | some i => .int i | none => .none)
+    else if lf == "parse_age" then pure (match Scalar.parseAge v with | some i => .int i | none => .none)
+    else if lf == "parse_set_header" then pure (.strs (if v.isEmpty then [] else parseListHeader v))
+    else if lf == "<lambda>" then
+      pure (if enumVals.contains (String.ofList v) then .str v else .str dflt.toList)
+    else none
+
+/-- `response.<attr> = value`; the value arrives as `~`, `i<int>`, `s<text>`, `l<atoms>` -/
+def scalarSet (h : HList) (attr val : String) : Option (HList × String) := do
+  let (name, lf, _) ← scalarRow attr
+  let text : Except String Str ← (match val.toList with
+    | ['~'] => some (.ok "None".toList)
+    | 'i' :: r => do
+      let i ← (String.ofList r).toInt?
+      if lf == "parse_age" && i < 0 then pure (.error "ValueError") else pure (.ok (CC.intText i))
+    | 's' :: r => (pAtom (String.ofList r)).map .ok
+    | 'l' :: r => (pAtoms (String.ofList r)).map fun l => .ok (dumpList l)
+    | _ => none : Option (Except String Str))
+  match text with
+  | .error e => pure (h, oExc e)
+  | .ok t =>
+    let r := Scalar.set h name t
+    pure (r.1, resOf r.2)
+
+def runScalar (attr : String) (h : HList) : List String → Option (List String)
+  | [] => some []
+  | o :: t => do
+    let (h', ret) ← (match o.splitOn "," with
+      | "h" :: fields => directEdit h fields
+      | ["set", v] => scalarSet h attr v
+      | ["del"] => do
+        let (name, _, _) ← scalarRow attr
+        pure (Scalar.delete h name, "~")
+      | _ => none : Option (HList × String))
+    let g ← scalarGet h' attr
+    let rest ← runScalar attr h' t
+    pure ((ret ++ "#H=" ++ oPairs h' ++ "|G=" ++ oSVal g) :: rest)
+
+def handleScalar (attr init : String) (ops : List String) : Option String := do
+  let h ← pPairs init
+  let g ← scalarGet h attr
+  let outs ← runScalar attr h ops
+  pure (";".intercalate (("#H=" ++ oPairs h ++ "|G=" ++ oSVal g) :: outs))
+
+def orBad (o : Option String) : Option String := some (o.getD badArgs)
+
 def handle : Handler
+  | "view", fam :: prop :: init :: ops =>
+    orBad (match unhexStr prop with
+      | none => none
+      | some p =>
+        if fam == "set" then runFam (famSet p) init ops
+        else if fam == "cc" then runFam famCC init ops
+        else if fam == "csp" then
+          runFam (famCSP (lower p) (if lower p == "content-security-policy".toList then "Content-Security-Policy".toList
+            else "Content-Security-policy-report-only".toList)) init ops
+        else if fam == "cr" then runFam famCR init ops
+        else if fam == "auth" then runFam famAuth init ops
+        else if fam == "mp" then runFam famMP init ops
+        else if fam == "scalar" then handleScalar (String.ofList p) init ops
+        else none)
   | _, _ => none
 
 end Wz.Driver.C16
